@@ -118,7 +118,11 @@ func c14Report(r *core.Run, fam string, aux int, d c14Defect, o c14Outcome, desc
 		}
 		if has && verr == nil && o.ser != nil {
 			if why, ok := c14RoundTrip(fam, aux, o.ser); !ok {
-				r.Violate(id+"|valid-value-no-clean-roundtrip", fmt.Sprintf("%s succeeds and the value validates, but %s (%s; %s)", o.entry, why, d.name, desc), cs)
+				vid := id + "|valid-value-no-clean-roundtrip"
+				if strings.Contains(why, "do not parse: ") { // the parser's reason is the class (e.g. the MIN_SIZE constant)
+					vid = "C14|" + o.entry + "|valid-value-no-clean-roundtrip[" + why[strings.Index(why, "do not parse: ")+14:] + "]"
+				}
+				r.Violate(vid, fmt.Sprintf("%s succeeds and the value validates, but %s (%s; %s)", o.entry, why, d.name, desc), cs)
 			}
 		}
 		if d.documented {
@@ -615,7 +619,7 @@ func runC14(r *core.Run) {
 				r.Evaluations.Add(1)
 				why, ok := c14RoundTrip(fam, in.Aux, res.Ser)
 				if !ok {
-					r.Violate("C14|"+p.Name+"|parsed-value-validates-but-no-clean-roundtrip|"+errClass(why), fmt.Sprintf("%s accepts the input and the value validates, but %s (%s %s; %s)", p.Name, why, in.Class, in.Detail, in.Base), in.Case(p.Name))
+					r.Violate("C14|"+p.Name+"|parsed-value-validates-but-no-clean-roundtrip|"+whyClass(why), fmt.Sprintf("%s accepts the input and the value validates, but %s (%s %s; %s)", p.Name, why, in.Class, in.Detail, in.Base), in.Case(p.Name))
 				}
 			}
 		}
@@ -653,9 +657,17 @@ func replayC14(r *core.Run, c core.Case) {
 			}
 			if verr, has := structuralValidate(res.Val); has && verr == nil {
 				if why, ok := c14RoundTrip(p.Family, in.Aux, res.Ser); !ok {
-					r.Violate("C14|"+p.Name+"|parsed-value-validates-but-no-clean-roundtrip|"+errClass(why), why, c)
+					r.Violate("C14|"+p.Name+"|parsed-value-validates-but-no-clean-roundtrip|"+whyClass(why), why, c)
 				}
 			}
 		}
 	}
+}
+
+// whyClass: the stable class of a round-trip failure reason (the parser's own reason when there is one).
+func whyClass(why string) string {
+	if i := strings.Index(why, "do not parse: "); i >= 0 {
+		return "its own bytes do not parse[" + why[i+14:] + "]"
+	}
+	return errClass(why)
 }
